@@ -207,6 +207,9 @@ func (e *env) expr(x ast.Expr) val {
 		if id, ok := t.Fun.(*ast.Ident); ok && len(t.Args) == 1 && (id.Name == "ObjectType" || id.Name == "string") {
 			return e.expr(t.Args[0]) // a conversion between string types
 		}
+		if sel, ok := t.Fun.(*ast.SelectorExpr); ok && len(t.Args) == 1 && sel.Sel.Name == "RefGroupSymbol" {
+			return e.expr(t.Args[0]) // sizes.RefGroupSymbol(s): a conversion between string types
+		}
 		if at, ok := t.Fun.(*ast.ArrayType); ok && at.Len == nil && exprName(at.Elt) == "byte" && len(t.Args) == 1 {
 			return e.expr(t.Args[0]) // []byte(s)
 		}
@@ -238,6 +241,13 @@ func (e *env) expr(x ast.Expr) val {
 					return val{"(" + m.lean + " " + strings.Join(args, " ") + ")", false, m.want[0]}
 				}
 			}
+		}
+		if sel, ok := t.Fun.(*ast.SelectorExpr); ok && len(t.Args) == 2 && (exprName(sel.X) == "bytes" || exprName(sel.X) == "strings") && sel.Sel.Name == "LastIndexByte" {
+			a, b := e.expr(t.Args[0]), e.expr(t.Args[1])
+			if b.k == kInt {
+				b = val{"(" + strings.TrimSuffix(strings.TrimPrefix(b.code, "("), " : Int)") + " : UInt8)", true, kByte}
+			}
+			return bind2(a, b, func(x, y string) string { return "(Go.lastIndexByteI " + x + " " + y + ")" }, kInt)
 		}
 		if sel, ok := t.Fun.(*ast.SelectorExpr); ok && len(t.Args) == 2 && (exprName(sel.X) == "bytes" || exprName(sel.X) == "strings") && sel.Sel.Name == "IndexByte" {
 			a, b := e.expr(t.Args[0]), e.expr(t.Args[1])
@@ -1160,6 +1170,9 @@ func kindOfType(x ast.Expr) kind {
 	if sel, ok := x.(*ast.SelectorExpr); ok && sel.Sel.Name == "OID" {
 		return kOID
 	}
+	if sel, ok := x.(*ast.SelectorExpr); ok && sel.Sel.Name == "RefGroupSymbol" { // a named string type
+		return kStr
+	}
 	if id, ok := x.(*ast.Ident); ok {
 		switch id.Name {
 		case "error":
@@ -1556,7 +1569,7 @@ func main() {
 		return
 	}
 	var out strings.Builder
-	out.WriteString("import GitSizer.Basic.GoSem\n-- GENERATED by tools/gostr2lean from git/ref_filter.go, git/gitconfig.go, sizes/path_resolver.go, git/batch_header.go and git/reference.go — do not edit\nnamespace Gen.Strs\nopen GitSizer\n\n")
+	out.WriteString("import GitSizer.Basic.GoSem\n-- GENERATED by tools/gostr2lean from git/ref_filter.go, git/gitconfig.go, sizes/path_resolver.go, git/batch_header.go, git/reference.go and internal/refopts/ref_group_builder.go — do not edit\nnamespace Gen.Strs\nopen GitSizer\n\n")
 	translate(repo, "git/ref_filter.go", "prefixFilter", "Filter", "prefixFilter_Filter", &out)
 	translate(repo, "git/gitconfig.go", "", "configKeyMatchesPrefix", "configKeyMatchesPrefix", &out)
 	translate(repo, "sizes/path_resolver.go", "", "scanRevision", "scanRevision", &out)
@@ -1565,6 +1578,8 @@ func main() {
 	resultOverride["ParseReference"] = "Bytes × Bytes × Nat × Bytes" // Refname, ObjectType, ObjectSize, OID
 	translate(repo, "git/batch_header.go", "", "ParseBatchHeader", "ParseBatchHeader", &out)
 	translate(repo, "git/reference.go", "", "ParseReference", "ParseReference", &out)
+	translate(repo, "internal/refopts/ref_group_builder.go", "", "splitKey", "splitKey", &out)
+	translate(repo, "internal/refopts/ref_group_builder.go", "", "parentName", "parentName", &out)
 	translateGetConfigLoop(repo, &out)
 	out.WriteString("end Gen.Strs\n")
 	os.MkdirAll(outdir, 0o755)
